@@ -27,6 +27,7 @@ char* _ZNK11QMetaObject4castEPK7QObject(char *self, char *obj) { return obj; }
 /* private-data destructors and list deallocation of stanzas: skipped (no memory-reclamation claim; symex cannot fold the reference
    counts of blocks reached through the std::variant result and would walk every member list) */
 void _ZN18QXmppStanzaPrivateD2Ev(char *self) { }
+void _ZN20QXmppPresencePrivateD2Ev(char *self) { }
 void _ZN23QXmppDiscoveryIqPrivateD2Ev(char *self) { }
 void _ZN23QXmppStanzaErrorPrivateD2Ev(char *self) { }
 void _ZN29QXmppDiscoveryIdentityPrivateD2Ev(char *self) { }
